@@ -4,7 +4,8 @@
    (byte-identical SBOR-encoded results under all flag combinations, cold/warm caches, 8 threads). *)
 From Coq Require Import List NArith Bool.
 Import ListNotations.
-Require Import RV.Model.C01_IdAlloc RV.Proof.C01_IdAlloc.
+From Coq Require Import String.
+Require Import RV.Model.C01_IdAlloc RV.Proof.C01_IdAlloc RV.Gen.C01_hash_iter.
 Open Scope N_scope.
 
 (* under collision-freeness of the surviving 29 hash bytes, every node id allocated within one
@@ -16,11 +17,76 @@ Proof. exact ids_injective. Qed.
 
 (* the k-th id of a transaction is id_at txh k: a function of (transaction hash, counter, entity type) only *)
 Theorem C01_ids_are_counter_indexed : forall (H : list N -> list N) etys a ids a',
-  allocate_all H a etys = (ids, a') -> ids = ids_from H (a_txh a) (a_next a) (firstn (length ids) etys).
+  allocate_all H a etys = (ids, a') -> ids = ids_from H (a_txh a) (a_next a) (firstn (List.length ids) etys).
 Proof. exact allocate_all_ids. Qed.
 
 Theorem C01_counter_bytes_injective : forall n m, n < 4294967296 -> m < 4294967296 -> le32 n = le32 m -> n = m.
 Proof. exact le32_inj. Qed.
+
+(* ---------- randomly seeded hash collections in the execution crates ---------- *)
+(* The table RV.Gen.C01_hash_iter is regenerated from the source tree on every run (gen_c01): every
+   non-test line of radix-engine, radix-engine-interface, radix-common, radix-substate-store-interface,
+   radix-native-sdk, radix-transactions, radix-blueprint-schema-init, sbor and radix-rust that mentions
+   HashMap / HashSet.  The reviewed list below is hand-written; a new, removed or changed site makes
+   the two differ and this theorem fail until the list has been reviewed again.
+   State-update order: Track keeps nodes / partitions / substates in IndexMaps (insertion order) and
+   BTreeMaps; the C12 model represents them as insertion-ordered / sorted association lists, so
+   to_state_updates is a function of the operation sequence by construction — there is no hash
+   iteration to abstract over, which is exactly what the table below pins. *)
+Open Scope string_scope.
+Definition reviewed_sites : list (String.string * String.string) := [
+  (* radix-rust: the definitions / constructors of the HashMap and HashSet aliases themselves, and
+     NonIterMap, the only hash map the engine uses: a wrapper whose API (pinned below) has no iteration *)
+  ("radix-rust/src/rust.rs", "HashMap::with_capacity_and_hasher(0, DefaultHashBuilder::default())");
+  ("radix-rust/src/rust.rs", "HashMap::with_capacity_and_hasher(n, DefaultHashBuilder::default())");
+  ("radix-rust/src/rust.rs", "HashMap<K, V, S>,");
+  ("radix-rust/src/rust.rs", "HashSet::with_capacity_and_hasher(0, DefaultHashBuilder::default())");
+  ("radix-rust/src/rust.rs", "HashSet::with_capacity_and_hasher(n, DefaultHashBuilder::default())");
+  ("radix-rust/src/rust.rs", "Self(HashMap::from_iter(iter))");
+  ("radix-rust/src/rust.rs", "Self(HashMap::with_hasher(DefaultHashBuilder::default()))");
+  ("radix-rust/src/rust.rs", "pub fn new<K, V>() -> HashMap<K, V> {");
+  ("radix-rust/src/rust.rs", "pub fn new<K>() -> HashSet<K> {");
+  ("radix-rust/src/rust.rs", "pub fn with_capacity<K, V>(n: usize) -> HashMap<K, V> {");
+  ("radix-rust/src/rust.rs", "pub fn with_capacity<K>(n: usize) -> HashSet<K> {");
+  ("radix-rust/src/rust.rs", "pub type HashMap<K, V, S = DefaultHashBuilder> = ext_HashMap<K, V, S>;");
+  ("radix-rust/src/rust.rs", "pub type HashSet<K> = ext_HashSet<K, DefaultHashBuilder>;");
+  ("radix-rust/src/rust.rs", "pub use hash_map::HashMap;");
+  ("radix-rust/src/rust.rs", "pub use hash_set::HashSet;");
+  ("radix-rust/src/rust.rs", "pub use hashbrown::HashMap as ext_HashMap;");
+  ("radix-rust/src/rust.rs", "pub use hashbrown::HashSet as ext_HashSet;");
+  ("radix-rust/src/rust.rs", "pub use std::collections::HashMap as ext_HashMap;");
+  ("radix-rust/src/rust.rs", "pub use std::collections::HashSet as ext_HashSet;");
+  ("radix-rust/src/rust.rs", "use hashbrown::HashMap;");
+  ("radix-rust/src/rust.rs", "use std::collections::HashMap;");
+  (* static manifest analysis (not execution): a lookup table blueprint -> function -> schema, only .get() *)
+  ("radix-transactions/src/manifest/static_resource_movements/typed_invocation.rs", "pub fn typed_native_invocation_function_table() -> HashMap<&'static str, HashMap<&'static str, HashMap<&'static str, SingleTypeSchema<ScryptoCustomSchema>>>> {");
+  ("radix-transactions/src/manifest/static_resource_movements/typed_invocation.rs", "use radix_rust::rust::collections::HashMap;");
+  (* sbor codecs for HashMap/HashSet values: encoding sorts the keys (keys.sort()) resp. goes through a
+     BTreeSet, so the byte encoding does not depend on the iteration order; decoding inserts *)
+  ("sbor/src/codec/collection.rs", "> Decode<X, D> for HashMap<K, V>");
+  ("sbor/src/codec/collection.rs", "> Encode<X, E> for HashMap<K, V>");
+  ("sbor/src/codec/collection.rs", "categorize_generic!(HashMap<K, V>, <K, V>, ValueKind::Map);");
+  ("sbor/src/codec/collection.rs", "categorize_generic!(HashSet<T>, <T>, ValueKind::Array);");
+  ("sbor/src/codec/collection.rs", "for HashSet<T>");
+  ("sbor/src/codec/collection.rs", "for HashSet<T>");
+  ("sbor/src/codec/collection.rs", "keys.sort();");
+  ("sbor/src/codec/collection.rs", "let set: BTreeSet<&T> = self.iter().collect();");
+  ("sbor/src/codec/collection.rs", "wrapped_double_generic_describe!(K, V, HashMap<K, V>, BTreeMap<K, V>);");
+  ("sbor/src/codec/collection.rs", "wrapped_generic_describe!(T, HashSet<T>, BTreeSet<T>);")
+].
+
+Theorem C01_hash_iteration_sites_reviewed :
+  hash_sites = reviewed_sites
+  /\ non_iter_map_api = ["clear"; "contains_key"; "entry"; "get"; "get_mut"; "insert"; "is_empty"; "len"; "new"; "remove"].
+Proof. split; reflexivity. Qed.
+
+(* none of the engine crates proper mentions a hash collection at all *)
+Theorem C01_engine_crates_have_no_hash_collections :
+  forallb (fun s => negb (String.prefix "radix-engine" (fst s) || String.prefix "radix-common" (fst s)
+                          || String.prefix "radix-native-sdk" (fst s) || String.prefix "radix-substate-store-interface" (fst s)
+                          || String.prefix "radix-blueprint-schema-init" (fst s))) hash_sites = true.
+Proof. vm_compute. reflexivity. Qed.
+Close Scope string_scope.
 
 Example C01_nonvacuous :
   let H := fun x => x in     (* identity "hash": collision free *)
@@ -28,5 +94,6 @@ Example C01_nonvacuous :
   /\ allocate (fun x => x) (mkA [7] U32_MAX) 93 = None.
 Proof. vm_compute. split; reflexivity. Qed.
 
+Print Assumptions C01_hash_iteration_sites_reviewed.
 Print Assumptions C01_ids_injective.
 Print Assumptions C01_ids_are_counter_indexed.
